@@ -339,8 +339,8 @@ func TestFindings(t *testing.T) {
 }
 
 func TestRandom(t *testing.T) {
-	chkFrag.Rapid(t, harness.Pick(4000, 20000))
-	chkSerial.Rapid(t, harness.Pick(4, 30))
+	chkFrag.Rapid(t, harness.Pick(4000, 100000))
+	chkSerial.Rapid(t, harness.Pick(4, 100))
 }
 
 // TestCutSweeps: for every function x client kind (network) x reply sizes: all single cuts; all pairs for replies <= 40 bytes;
